@@ -731,6 +731,7 @@ def c10(tier, rep):
     from common import master_dialects
     rep.extra["rule"] = ("every sequence of the 5 step keyword types over background 0..2 x scenario 0..4 steps, plain and outline (complete up to that length); "
                          "replayed on AST dictionaries and (short ones) as text; every listed step keyword of every dialect once for the keyword -> type map")
+    _use_markdown_matcher_first()
     cases, bad, res = CL.types(2, 4 if tier == "quick" else 5)
     rep.add_tlc("MC_Types", res, f"{len(cases)} keyword type sequences x plain/outline: Inv_Definite, Inv_FromKeyword, Inv_PlainEqualsOutline, P_C10; replayed through Compiler.compile")
     rep.traces += 2 * len(cases)
@@ -768,7 +769,9 @@ def c10(tier, rep):
     E.ast_variants_pass(rep, E.src_corpus() + E.src_limits() + docs + E.src_generated(60 if tier == "quick" else 600, SEED + 6))
     # one matcher re-used across documents that switch dialect by header: the keyword -> type map must be the dialect's own each time
     hdr = [(f"hdr:{d}", f"# language: {d}\n" + body, "en") for (n, body, d) in docs[:: 2 if tier == "quick" else 1]]
-    E.reuse_pass(rep, hdr + [("plain-en", "Feature: f\n  Scenario: s\n    Given a\n    And b\n    * c\n", "en")] + hdr[:5], "reuse-headers")
+    plain = [("plain-en", "Feature: f\n  Scenario: s\n    Given a\n    And b\n    * c\n    But d\n    When e\n    And f\n", "en")]
+    E.reuse_pass(rep, hdr + plain + hdr[:5] + [x for x in E.src_limits() if not x[0].startswith("count:")] + plain + hdr[:3] + plain, "reuse-headers")
+    _dialect_table_intact(rep)
 
 
 def c13(tier, rep):
@@ -859,6 +862,24 @@ def c15(tier, rep):
         if "compile-mutated-document" in a["exc"]:
             rep.violation({"kind": "compile-mutates"}, {"engine": "determinism", "what": "Compiler.compile modified the document it was given", "source": s})
     _dialect_table_intact(rep)
+
+
+def _use_markdown_matcher_first():
+    """other matchers of the library used in the same process must leave the plain matcher's keyword types alone (they share the dialect table)"""
+    from gherkin.token_matcher_markdown import GherkinInMarkdownTokenMatcher
+    from gherkin.gherkin_line import GherkinLine
+    from gherkin.token import Token
+    from common import master_dialects
+    for d, D in master_dialects().items():
+        tm = GherkinInMarkdownTokenMatcher(d)
+        for role in ("given", "when", "then", "and", "but"):
+            for kw in D[role][:3]:
+                for line in (f"* {kw}x", f"- {kw}y", f"## {D['scenario'][0]}: s", "`@t`", "  | a |"):
+                    for m in ("match_StepLine", "match_ScenarioLine", "match_TagLine", "match_TableRow", "match_FeatureLine"):
+                        try:
+                            getattr(tm, m)(Token(GherkinLine(line, 1), {"line": 1}))
+                        except Exception:  # noqa: BLE001 -- judged by C19
+                            pass
 
 
 def _dialect_table_intact(rep):
